@@ -1,3 +1,229 @@
-import RlibModel.Model.Common
-/-! Line-protocol driver for engine `fft` (stub: to be written by the engine's author). -/
-def main : IO Unit := pure ()
+import RlibModel.Model.FftFloat
+/-!
+Line-protocol driver for engine `fft` (property C04).
+
+Case:  `fft <f64|f32> ; op ; op ; … ; op`   — all ops are performed on ONE object created by `new`;
+the answer is the result of the LAST op (earlier ops are the call history).
+
+ops:  `u n` | `m a b` | `mi a b res` | `f v n` | `fi v n rx ry` | `inv xs ys` | `ii xs ys res` | `fm a b n` | `fmx a b n`
+      (`fmx` = forward transforms on this object, inverse transform of the pointwise product on a brand-new one)
+      (vectors are comma lists, `-` = empty)
+raw : i64 vector results as `[..]` (digest `n=<len>:h=<fnv>` above 48 entries); complex results as bit patterns
+view: `<i64 vector> fresh=<same|diff> oracle=<exact|wrong>` for m / mi / fm,  `fresh=…` for inv / ii,
+      `len=<n> fresh=…` for f / fi, where `fresh` compares with the same call on a brand-new object
+spec: the exact integer convolution (`conv`), `fresh=same`, `oracle=exact`; `any` outside the envelope
+-/
+open Rlib Rlib.Fft
+
+/-- A precision: arithmetic, bit patterns for printing, and the envelope bound on `max² · min(len)`. -/
+structure Prec (K : Type) where
+  A : Arith K
+  bits : K → UInt64 × UInt64
+  ofInts : Int → Int → K
+  bound : Nat
+
+def prec64 : Prec C64 :=
+  { A := arith64, bits := fun c => (c.re.toBits, c.im.toBits), ofInts := fun x y => ⟨f64OfInt x, f64OfInt y⟩,
+    bound := 1000000000000 }
+def prec32 : Prec C32 :=
+  { A := arith32, bits := fun c => (c.re.toBits.toUInt64, c.im.toBits.toUInt64), ofInts := fun x y => ⟨f32OfInt x, f32OfInt y⟩,
+    bound := 1000 }
+
+def fnvStep (h x : UInt64) : UInt64 := (h ^^^ x) * 0x100000001b3
+def fnvInit : UInt64 := 0xcbf29ce484222325
+
+def showIVec (xs : List Int) : String :=
+  if xs.length ≤ 48 then showInts xs
+  else
+    let h := xs.foldl (fun h x => fnvStep h (Int64.ofInt x).toUInt64) fnvInit
+    s!"n={xs.length}:h={toHex h.toNat 16}"
+
+def showCVec {K} (P : Prec K) (xs : Array K) : String :=
+  if xs.size ≤ 4 then
+    showListWith (fun c => let (r, i) := P.bits c; s!"{toHex r.toNat 1}/{toHex i.toNat 1}") xs.toList
+  else
+    let h := xs.foldl (fun h c => let (r, i) := P.bits c; fnvStep (fnvStep h r) i) fnvInit
+    s!"n={xs.size}:h={toHex h.toNat 16}"
+
+inductive POp where
+  | u (n : Nat)
+  | m (a b : Array Int)
+  | mi (a b : Array Int) (res : List Int)
+  | f (v : Array Int) (n : Nat)
+  | fi (v : Array Int) (n : Nat) (rx ry : Array Int)
+  | inv (xs ys : Array Int)
+  | ii (xs ys : Array Int) (res : List Int)
+  | fm (a b : Array Int) (n : Nat)
+  | fmx (a b : Array Int) (n : Nat)
+
+/-- State of the comma-list scanner: values so far, current magnitude, sign, digit seen, still well-formed. -/
+structure Scan where
+  out : Array Int
+  cur : Nat
+  neg : Bool
+  dig : Bool
+  ok : Bool
+
+def Scan.push (st : Scan) : Scan :=
+  if st.dig then { st with out := st.out.push (if st.neg then -(st.cur : Int) else (st.cur : Int)), cur := 0, neg := false, dig := false }
+  else { st with ok := false }
+
+/-- Parse `"1,-2,3"` (`-` or `""` = empty) in one pass over the bytes (the generic `splitOn` parser is
+    too slow for 10^5-entry vectors). -/
+def parseVec? (s : String) : Option (Array Int) :=
+  if s = "" ∨ s = "-" then some #[] else
+  let st := s.toUTF8.foldl (fun (st : Scan) (c : UInt8) =>
+    if 48 ≤ c ∧ c ≤ 57 then { st with cur := st.cur * 10 + (c.toNat - 48), dig := true }
+    else if c = 45 then (if st.dig ∨ st.neg then { st with ok := false } else { st with neg := true })
+    else if c = 44 then st.push
+    else { st with ok := false }) { out := #[], cur := 0, neg := false, dig := false, ok := true }
+  let st := st.push
+  if st.ok then some st.out else none
+
+def parseOp? (s : String) : Option POp :=
+  match tokens s with
+  | ["u", n] => (parseNat? n).map POp.u
+  | ["m", a, b] => do pure (POp.m (← parseVec? a) (← parseVec? b))
+  | ["mi", a, b, r] => do pure (POp.mi (← parseVec? a) (← parseVec? b) ((← parseVec? r).toList))
+  | ["f", v, n] => do pure (POp.f (← parseVec? v) (← parseNat? n))
+  | ["fi", v, n, rx, ry] => do pure (POp.fi (← parseVec? v) (← parseNat? n) (← parseVec? rx) (← parseVec? ry))
+  | ["inv", xs, ys] => do pure (POp.inv (← parseVec? xs) (← parseVec? ys))
+  | ["ii", xs, ys, r] => do pure (POp.ii (← parseVec? xs) (← parseVec? ys) ((← parseVec? r).toList))
+  | ["fm", a, b, n] => do pure (POp.fm (← parseVec? a) (← parseVec? b) (← parseNat? n))
+  | ["fmx", a, b, n] => do pure (POp.fmx (← parseVec? a) (← parseVec? b) (← parseNat? n))
+  | _ => none
+
+/-- Result of one call as printed. -/
+inductive POut (K : Type) where
+  | unit
+  | ivec (xs : List Int)
+  | cvec (xs : Array K)
+  | panic (p : Panic)
+  | invalid               -- a `debug_assert!` precondition is violated: the harness does not make the call
+
+def cplx {K} (P : Prec K) (xs ys : Array Int) : Array K :=
+  Array.ofFn (n := xs.size) (fun i => P.ofInts xs[i] (ys.getD i 0))
+
+def fitsI32 (v : Array Int) : Bool := v.all (fun x => -2147483648 ≤ x && x ≤ 2147483647)
+
+/-- Does the harness make this call at all? (preconditions written as `debug_assert!` in fft.rs, i32 inputs) -/
+def POp.valid : POp → Bool
+  | .u n => n ≠ 0
+  | .m a b => fitsI32 a && fitsI32 b
+  | .mi a b _ => fitsI32 a && fitsI32 b
+  | .f v n => fitsI32 v && v.size ≤ fftSize v.size n
+  | .fi v n rx ry => fitsI32 v && fitsI32 rx && fitsI32 ry && rx.size == ry.size && v.size ≤ fftSize v.size n
+  | .inv xs ys => fitsI32 xs && fitsI32 ys && xs.size == ys.size && isPow2 xs.size
+  | .ii xs ys _ => fitsI32 xs && fitsI32 ys && xs.size == ys.size && isPow2 xs.size
+  | .fm a b n => fitsI32 a && fitsI32 b && isPow2 n && a.size ≤ n && b.size ≤ n
+  | .fmx a b n => fitsI32 a && fitsI32 b && isPow2 n && a.size ≤ n && b.size ≤ n
+
+/-- The model-level call a protocol op denotes. -/
+def POp.toOp {K} (P : Prec K) : POp → Op K
+  | .u n => .updateN n
+  | .m a b => .multiply a b
+  | .mi a b res => .multiplyInto a b res
+  | .f v n => .fft v n
+  | .fi v n rx ry => .fftInto v n (cplx P rx ry)
+  | .inv xs ys => .fftInv (cplx P xs ys)
+  | .ii xs ys res => .fftInvInto (cplx P xs ys) res
+  | .fm a b n => .fftMulInv a b n
+  | .fmx a b n => .fftMulInvFresh a b n
+
+/-- Perform one call on the model object (`Rlib.Fft.call` / `Rlib.Fft.step`, the definitions the
+    theorems of `Props/C04.lean` are about). -/
+def pcall {K} (P : Prec K) (s : State K) (op : POp) : State K × POut K :=
+  if !op.valid then (s, .invalid) else
+  match call P.A s (op.toOp P) with
+  | .ok (s', .unit) => (s', .unit)
+  | .ok (s', .ints xs) => (s', .ivec xs)
+  | .ok (s', .cplx xs) => (s', .cvec xs)
+  | .error e => (s, .panic e)
+
+def showOut {K} (P : Prec K) : POut K → String
+  | .unit => "ok"
+  | .ivec xs => showIVec xs
+  | .cvec xs => showCVec P xs
+  | .panic p => p.toString
+  | .invalid => "INVALID"
+
+def maxAbs (v : Array Int) : Nat := v.foldl (fun m x => max m x.natAbs) 0
+
+/-- The precision envelope of the property: `max(|a|∞,|b|∞)² · min(len a, len b) ≤ bound`. -/
+def inEnvelope {K} (P : Prec K) (a b : Array Int) : Bool :=
+  let m := max (maxAbs a) (maxAbs b)
+  m * m * min a.size b.size ≤ P.bound
+
+def smallRes (res : List Int) : Bool := res.all (fun x => x.natAbs ≤ 1000000000000000)
+
+/-- The exact result the specification prescribes for the call (computed once per case). -/
+def expected (op : POp) : Option (List Int) :=
+  match op with
+  | .m a b => some (conv a b)
+  | .mi a b res => some (addPrefix res (conv a b))
+  | .fm a b n => some (conv a b ++ List.replicate (n - (a.size + b.size - 1)) 0)
+  | .fmx a b n => some (conv a b ++ List.replicate (n - (a.size + b.size - 1)) 0)
+  | _ => none
+
+def padTo (xs : List Int) (n : Nat) : List Int := xs ++ List.replicate (n - xs.length) 0
+
+/-- What the specification says about the last call: `none` = not constrained (`any`). -/
+def specOf {K} (P : Prec K) (exp : Option (List Int)) : POp → Option String
+  | .u n => if isPow2 n then some "ok" else none
+  | .m a b => if inEnvelope P a b then exp.map (fun e => s!"{showIVec e} fresh=same oracle=exact") else none
+  | .mi a b res =>
+    if inEnvelope P a b && smallRes res then exp.map (fun e => s!"{showIVec e} fresh=same oracle=exact") else none
+  | .f v n => let n := fftSize v.size n; if isPow2 n then some s!"len={n} fresh=same" else none
+  | .fi v n rx _ => let n := fftSize v.size n; if isPow2 n then some s!"len={rx.size} fresh=same" else none
+  | .inv _ _ => some "fresh=same"
+  | .ii _ _ _ => some "fresh=same"
+  | .fm a b n | .fmx a b n =>
+    if a.size = 0 ∨ b.size = 0 then none
+    else if inEnvelope P a b && a.size + b.size - 1 ≤ n then
+      exp.map (fun e => s!"{showIVec e} fresh=same oracle=exact") else none
+
+/-- The view of a result through the property's eyes. -/
+def viewOf {K} (P : Prec K) (exp : Option (List Int)) (op : POp) (used fresh : POut K) : String :=
+  let rawU := showOut P used
+  let same := if rawU == showOut P fresh then "fresh=same" else "fresh=diff"
+  match op, used with
+  | .u _, _ => rawU
+  | _, .panic _ => rawU
+  | _, .invalid => rawU
+  | .f _ _, .cvec xs => s!"len={xs.size} {same}"
+  | .fi _ _ _ _, .cvec xs => s!"len={xs.size} {same}"
+  | .inv _ _, _ => same
+  | .ii _ _ _, _ => same
+  | _, .ivec xs =>
+    let orc := match exp with
+      | some e => if e == xs then "oracle=exact" else "oracle=wrong"
+      | none => "oracle=none"
+    s!"{rawU} {same} {orc}"
+  | _, _ => rawU
+
+def runCase {K} (P : Prec K) (ops : List POp) : String :=
+  match ops.reverse with
+  | [] => "M INVALID | V INVALID | S any"
+  | last :: histRev =>
+    let s := histRev.reverse.foldl (fun s op => (pcall P s op).1) (new P.A)
+    let used := (pcall P s last).2
+    let fresh := (pcall P (new P.A) last).2
+    let exp := expected last
+    let spec := match used with
+      | .invalid => "any"
+      | _ => (specOf P exp last).getD "any"
+    answer3 (showOut P used) (viewOf P exp last used fresh) spec
+
+def handle (line : String) : String :=
+  match splitOps line with
+  | [] => badLine line
+  | hdr :: ops =>
+    match ops.mapM parseOp? with
+    | none => badLine line
+    | some ops =>
+      match tokens hdr with
+      | ["fft", "f64"] => runCase prec64 ops
+      | ["fft", "f32"] => runCase prec32 ops
+      | _ => badLine line
+
+def main : IO Unit := driverMain handle
